@@ -553,6 +553,39 @@ def subscriptions(ctx: Ctx, chk, rule: str) -> None:
     mt = ctx.cls(MT)
     conn = mt.find_method("connect")
     I = ctx.I
+    # 1. shape-independent reading: interpret connect (and the helpers / generators it calls) over constants and the
+    #    symbolic in-prefix, collecting every self._subscribe(topic, qos) and whether its coroutine is awaited
+    from . import subeval
+
+    try:
+        toks = subeval.SubEval(ctx, mt).run(conn)
+    except subeval.Unsupported as err:
+        toks = None
+        chk.notes["subscriptions_partial_evaluation"] = f"not applicable ({err}); shape-based reading used"
+    except subeval._PyExc as err:
+        toks = None
+        chk.notes["subscriptions_partial_evaluation"] = f"connect raises {err.name} on its straight path; shape-based reading used"
+    if toks is not None:
+        commands = sorted(I.folder.enum_values(I.vclass(ctx.versions[0], "Command")))
+        want = {subeval.PREFIX + f"/+/+/{c}/+/+" for c in commands}
+        got = {t.topic for t in toks}
+        show_ = lambda xs: sorted(x.replace(subeval.PREFIX, "<in-prefix>") for x in xs)  # noqa: E731
+        chk.instance(rule)
+        key = f"{conn.fq}::subscribed-topics"
+        where = ctx.loc(conn, conn.node)
+        if got == want:
+            chk.ok(rule, key, f"connect subscribes exactly '<in-prefix>/+/+/<c>/+/+' for c in {commands} ({len(toks)} subscribe call(s) evaluated)", where)
+        else:
+            chk.refute(rule, key, f"connect subscribes {show_(got)}; the statement requires exactly {show_(want)}: messages of a missing command are never received / foreign topics are", where)
+        chk.instance(rule)
+        key = f"{conn.fq}::subscribe-loop"
+        lost = [t for t in toks if not t.awaited]
+        if not lost:
+            chk.ok(rule, key, "every subscription coroutine is awaited (directly or through gather)", where)
+        else:
+            chk.refute(rule, key, f"subscription loop: subscribe coroutine is never awaited ({show_(t.topic for t in lost)[:2]}…): the subscription is never made", where)
+        chk.notes["subscriptions_partial_evaluation"] = f"{len(toks)} subscribe calls evaluated"
+        return
     chk.instance(rule)
     # literal topic list
     lists = [(n.targets[0].id, n.value) for n in ctx.own_nodes(conn) if isinstance(n, ast.Assign) and isinstance(n.targets[0], ast.Name) and isinstance(n.value, ast.List) and n.value.elts and all(isinstance(e, ast.Constant) and isinstance(e.value, str) for e in n.value.elts)]
@@ -746,22 +779,23 @@ def fifo1(ctx: Ctx, chk) -> None:
     # read: returns .message / raises .error of the item it took
     chk.instance(rule)
     key = f"{rd.fq}::delivery"
+    from ..prov import Canon
+
+    rd0 = rd
+    # the unwrapping of the dequeued item may live in a private helper: judged written out, locals looked through
+    rd = ctx.inl(rd, lambda h: h.name not in ("_receive", "_receive_error", "_parse_mqtt_to_message", "_parse_message_to_mqtt", "_connect", "_disconnect", "_subscribe", "_publish", "_handle_incoming"))
     la = ctx.I.local_assigns(rd)
+    cnr = Canon(ctx.I, rd, "")
     got_names = [k for k, v in la.items() if len(v) == 1 and isinstance(v[0], ast.Await) and isinstance(v[0].value, ast.Call) and norm(v[0].value.func).endswith("_incoming_messages.get")]
     ok = False
     if len(got_names) == 1:
         item = got_names[0]
         rets = [n for n in ctx.own_nodes(rd) if isinstance(n, ast.Return) and n.value is not None]
         raises = [n for n in ctx.own_nodes(rd) if isinstance(n, ast.Raise) and n.exc is not None and not isinstance(n.exc, ast.Call)]
-
-        def origin(e):
-            if isinstance(e, ast.Name):
-                v = la.get(e.id) or []
-                if len(v) == 1 and isinstance(v[0], ast.expr):
-                    return norm(v[0])
-            return norm(e)
-
-        ok = bool(rets) and all(origin(r.value) == f"{item}.message" for r in rets) and bool(raises) and all(origin(r.exc) == f"{item}.error" for r in raises)
+        want_m = cnr.canon(ast.parse(f"{item}.message", mode="eval").body)
+        want_e = cnr.canon(ast.parse(f"{item}.error", mode="eval").body)
+        ok = bool(rets) and all(cnr.canon(r.value) == want_m for r in rets) and bool(raises) and all(cnr.canon(r.exc) == want_e for r in raises)
+    rd = rd0
     if ok:
         chk.ok(rule, key, "returns item.message, raises item.error", ctx.loc(rd, rd.node))
     else:
@@ -847,6 +881,10 @@ def task_esc(ctx: Ctx, chk) -> None:
             rr = [x for b in node.body for x in ast.walk(b) if isinstance(x, ast.Raise)]
             if fw and not rr:
                 arg = fw[0].args[0] if fw[0].args else None
+                if isinstance(arg, ast.Name):  # `error = TransportFailedError(...)` ... `self._receive_error(error)`
+                    la_ = [v for v in (ctx.I.local_assigns(f_).get(arg.id) or [])]
+                    if len(la_) == 1 and isinstance(la_[0], ast.Call):
+                        arg = la_[0]
                 cls = ctx.eea().exc_class_of(arg.func, _frame(ctx, f_)) if isinstance(arg, ast.Call) else None
                 if cls and eea.issub(cls, TERR):
                     chk.ok(rule, key, f"forwarded as {short(cls)}", ctx.loc(f_, node))
